@@ -482,10 +482,13 @@ class FileResponse(Response, FileResponseMixin):
 
         http_range, http_if_range = "", ""
         for key, value in scope["headers"]:
+            # a header sent as several lines is the comma-joined list, as in WSGI
             if key == b"range":
-                http_range = value.decode("latin-1")
+                text = value.decode("latin-1")
+                http_range = f"{http_range}, {text}" if http_range else text
             elif key == b"if-range":
-                http_if_range = value.decode("latin-1")
+                text = value.decode("latin-1")
+                http_if_range = f"{http_if_range}, {text}" if http_if_range else text
 
         if http_range == "" or (
             http_if_range != "" and not self.judge_if_range(http_if_range, stat_result)
